@@ -135,6 +135,48 @@ def decorators(node):
   return out
 
 
+def is_cached_property(node):
+  return any(d in ('functools.cached_property', 'cached_property') for d in decorators(node))
+
+
+def _self_attrs(fn, ctx):
+  out = set()
+  for n in ast.walk(fn):
+    if isinstance(n, ast.Attribute) and isinstance(n.value, ast.Name) and n.value.id == 'self' and isinstance(n.ctx, ctx):
+      out.add(n.attr)
+  return out
+
+
+def memo_is_stable(cls, getter):
+  """Is memoising this getter unobservable?  Yes when nothing it reads (directly, or through other getters of the class) is
+  stored to by a method of the class other than __init__/__post_init__ (self.x = / self.x op= / object.__setattr__(self,'x',..)).
+  A frozen dataclass passes trivially unless it uses object.__setattr__ outside __post_init__."""
+  fns = {n.name: n for n in cls.body if isinstance(n, ast.FunctionDef)}
+  reads, todo = set(), [getter]
+  seen = set()
+  while todo:
+    f = todo.pop()
+    if f.name in seen:
+      continue
+    seen.add(f.name)
+    for a in _self_attrs(f, ast.Load):
+      reads.add(a)
+      if a in fns and a not in seen:
+        todo.append(fns[a])
+  writes = set()
+  for name, f in fns.items():
+    if name in ('__init__', '__post_init__'):
+      continue
+    writes |= _self_attrs(f, ast.Store)
+    for n in ast.walk(f):
+      if isinstance(n, ast.AugAssign) and isinstance(n.target, ast.Attribute) and isinstance(n.target.value, ast.Name) and n.target.value.id == 'self':
+        writes.add(n.target.attr)
+      if (isinstance(n, ast.Call) and ast.unparse(n.func) == 'object.__setattr__' and len(n.args) >= 2
+          and isinstance(n.args[0], ast.Name) and n.args[0].id == 'self' and isinstance(n.args[1], ast.Constant)):
+        writes.add(n.args[1].value)
+  return not (reads & writes)
+
+
 def is_property(node):
   return any(d in ('property', 'functools.cached_property', 'cached_property')
              for d in decorators(node))
